@@ -4,5 +4,5 @@ From AN Require Import Model.Connect Model.TlsAccept.
 Extraction Language OCaml.
 Extraction "../ocaml/tls/gen.ml"
   hostname port parse_u16 build ci_hostname ci_get_port ci_addrs ci_take_addrs
-  resolve tcp_connect connect tls_connect connect_tls
+  resolve tcp_connect connect tls_connect connect_tls uri_hostname uri_port uri_ci_port
   init step run run_from shift_calls native_step native_run.
